@@ -76,8 +76,13 @@ def main():
             return orig[name](*a, **kw)
         return f
 
+    stated = set()
     for op in scn["ops"]:
         k = op["op"]
+        if k in ("seed",):
+            stated.update(op["os"])
+        if k in ("default", "restore"):
+            stated.add(op["o"])
         if k == "construct":
             s.op_construct(op)
             continue
@@ -97,6 +102,10 @@ def main():
             s.lookup(op["o"]).get_randstate()             # forces the default state to be derived now
             events.append({"op": "default", "o": op["o"]})
         elif k == "snap":
+            if op["o"] not in stated:
+                # the first state-related call on a fresh object derives the default state (one global draw), then copies it
+                events.append({"op": "default", "o": op["o"]})
+                stated.add(op["o"])
             snaps[op["name"]] = s.lookup(op["o"]).get_randstate()
             events.append({"op": "snap", "o": op["o"], "name": op["name"]})
         elif k == "restore":
